@@ -158,7 +158,7 @@ func valsRuns(r *rand.Rand, enc string, n, maxRun int, base int64) [][]byte {
 // ---------------------------------------------------------------------------
 // medium key-set families
 
-var familyNames = []string{"uniform", "twosym", "prefixes", "wide", "palette", "caterpillar", "ascii", "nibdiv", "paletteDeep", "mixed"}
+var familyNames = []string{"uniform", "twosym", "prefixes", "wide", "palette", "caterpillar", "ascii", "nibdiv", "paletteDeep", "samehigh", "mixed"}
 
 func uniq(ks []string) []string {
 	sort.Strings(ks)
@@ -293,6 +293,19 @@ func genKeys(r *rand.Rand, family string, n, maxLen int) []string {
 			if r.Intn(3) == 0 {
 				k += randBytes(r, r.Intn(4), []byte("abcdefghijklmnopqrstuvwxyz"))
 			}
+			ks = append(ks, k)
+		}
+	case "samehigh":
+		// > 10 distinct bytes that share their high half-byte: a 257-bit node whose
+		// first differing bit lies in the LOW half of the byte
+		hi := byte(r.Intn(16)) << 4
+		alpha := []byte{}
+		for _, x := range r.Perm(16)[:11+r.Intn(6)] {
+			alpha = append(alpha, hi|byte(x))
+		}
+		lv := 1 + r.Intn(2)
+		for i := 0; i < n; i++ {
+			k := randBytes(r, lv, alpha) + randBytes(r, r.Intn(maxLen+1), []byte{0x00, 0x31, 0x62, 0x80, 0xff})
 			ks = append(ks, k)
 		}
 	case "nibdiv":
@@ -440,3 +453,92 @@ func floorWitness(c *TrieCase, qs []string) []int {
 	}
 	return fp
 }
+
+// ---------------------------------------------------------------------------
+// boundary-seeking key sets: the succinct structures are arrays of 64-bit words
+// with rank indexes per 64 or 128 bits, so the interesting shapes are those whose
+// counts land exactly on (or next to) a word boundary.  The harness builds the
+// trie with the real library, decodes it with its own decoder and trims keys
+// until the wanted condition holds.  (The library only steers generation here;
+// it never contributes to a verdict.)
+
+type shapeInfo struct {
+	InnerBits, InnerCnt, LeafCnt, NodeCnt, StepCnt, TailCnt int
+}
+
+func shapeOf(keys []string, o4 [4]int) (shapeInfo, bool) {
+	c := &TrieCase{Keys: keys, Enc: "none", Opt4: o4}
+	st, _, _ := c.Build()
+	if st == nil {
+		return shapeInfo{}, false
+	}
+	b, err := st.Marshal()
+	if err != nil {
+		return shapeInfo{}, false
+	}
+	sl, err := ParseSlim(b)
+	if err != nil {
+		return shapeInfo{}, false
+	}
+	d, err := Decode(sl)
+	if err != nil {
+		return shapeInfo{}, false
+	}
+	si := shapeInfo{InnerCnt: d.InnerCnt, LeafCnt: d.LeafCnt, NodeCnt: len(d.Nodes), StepCnt: d.StepCnt}
+	for _, n := range d.Nodes {
+		if n.Inner {
+			switch {
+			case n.Big:
+				si.InnerBits += 257
+			case n.Short:
+				si.InnerBits += d.ShortSize
+			default:
+				si.InnerBits += 17
+			}
+		} else if n.HasTail {
+			si.TailCnt++
+		}
+	}
+	return si, true
+}
+
+var boundaryConds = []struct {
+	Name string
+	F    func(s shapeInfo) bool
+}{
+	{"innerbits%64=0", func(s shapeInfo) bool { return s.InnerBits > 0 && s.InnerBits%64 == 0 }},
+	{"innerbits%64=63", func(s shapeInfo) bool { return s.InnerBits%64 == 63 }},
+	{"innerbits%64=1", func(s shapeInfo) bool { return s.InnerBits > 64 && s.InnerBits%64 == 1 }},
+	{"innerbits%128=0", func(s shapeInfo) bool { return s.InnerBits > 0 && s.InnerBits%128 == 0 }},
+	{"innercnt%64=0", func(s shapeInfo) bool { return s.InnerCnt > 0 && s.InnerCnt%64 == 0 }},
+	{"innercnt%64=1", func(s shapeInfo) bool { return s.InnerCnt > 64 && s.InnerCnt%64 == 1 }},
+	{"leafcnt%64=0", func(s shapeInfo) bool { return s.LeafCnt > 0 && s.LeafCnt%64 == 0 }},
+	{"leafcnt%64=1", func(s shapeInfo) bool { return s.LeafCnt > 64 && s.LeafCnt%64 == 1 }},
+	{"nodecnt%64=0", func(s shapeInfo) bool { return s.NodeCnt > 0 && s.NodeCnt%64 == 0 }},
+	{"nodecnt%64=1", func(s shapeInfo) bool { return s.NodeCnt > 64 && s.NodeCnt%64 == 1 }},
+	{"stepcnt%128=0", func(s shapeInfo) bool { return s.StepCnt > 0 && s.StepCnt%128 == 0 }},
+	{"stepcnt%64=0", func(s shapeInfo) bool { return s.StepCnt > 0 && s.StepCnt%64 == 0 }},
+	{"tailcnt%64=0", func(s shapeInfo) bool { return s.TailCnt > 0 && s.TailCnt%64 == 0 }},
+}
+
+// seekBoundary returns a key set of the family satisfying condition ci under
+// options o4 (the shape depends on the options through ShortSize only), or nil.
+func seekBoundary(r *rand.Rand, family string, ci int, o4 [4]int) []string {
+	cond := boundaryConds[ci%len(boundaryConds)]
+	n := 70 + r.Intn(3)*64 + r.Intn(20)
+	keys := genKeys(r, family, n, 1+r.Intn(8))
+	for tries := 0; tries < 400 && len(keys) > 2; tries++ {
+		if si, ok := shapeOf(keys, o4); ok && cond.F(si) {
+			return keys
+		}
+		// drop one key: mostly the last one (keeps the shape regular), sometimes a random one
+		i := len(keys) - 1
+		if r.Intn(3) == 0 {
+			i = r.Intn(len(keys))
+		}
+		keys = append(append([]string{}, keys[:i]...), keys[i+1:]...)
+	}
+	return nil
+}
+
+var boundaryFamilies = []string{"twosym", "uniform", "samehigh", "wide", "palette", "ascii", "prefixes", "nibdiv"}
